@@ -195,13 +195,19 @@ def _with_deadline(seconds, fn):
 
 # ---- random hand-built models -----------------------------------------------------------------------------------------
 
+LIBRARY_EDGE_NAMES = ['urlEncodeComponent', 'arrayCopy', 'urlEncode', 'systemType', 'arrayDelete', 'stringUpper', 'mathSqrt', 'regexTest']     # first / last names of the library table and a few others
 LABEL_POOLS = [['A', 'B', 'C', 'D']] * 3 + [['', 'B', '0', 'A b'], ['__bareScriptDone0', '__bareScriptLoop0', 'A', ''], ['label', '\u00e9', 'a.b', 'A'], ['A', 'a', ' A', 'A ']]
 # values a conditional jump may test directly (the documented truth table: null, false, 0, '', [] are false - everything else, the empty object included, is true)
 TRUTH_POOL = [None, True, False, 0.0, -0.0, 1.0, 0, 2, '', '0', 'x', [], [0.0], {}, {'a': None}, float('nan'), datetime.datetime(1970, 1, 1), datetime.date(2020, 1, 1)]
 
 
+FUNCTION_NAME_POOLS = [['ff', 'gg', 'hh']] * 4 + [['f{x}', '{}', 'g}'], ['ff', 'open{', '%s'], ['a b', 'ff', ''], ['f"q', "g'h", 'ff']]
+ASSIGN_NAMES = ['w', 'w', 'w', '', 'a b', '{0}', 'n']
+
+
 def random_model(rnd, size):
     labels = rnd.choice(LABEL_POOLS)
+    fnames = rnd.choice(FUNCTION_NAME_POOLS)
     counter = [0]
 
     def stmts(n, in_func, depth=0):
@@ -222,8 +228,12 @@ def random_model(rnd, size):
                 out.append({'jump': {'label': rnd.choice(labels), 'expr': {'function': {'name': rnd.choice(['abs', 'len', 'max', 'round', 'text']), 'args': [V('n')]}}}})
             elif k < 0.5:
                 # a variable set to a constant / read before it is assigned in this run (null in a fresh run)
-                out.append(rnd.choice([{'expr': {'name': 'w', 'expr': {'number': 7.0}}}, {'return': {'expr': V('w')}},
-                                       {'expr': {'expr': {'function': {'name': 'systemLog', 'args': [V('w')]}}}}]))
+                wname = rnd.choice(ASSIGN_NAMES)
+                out.append(rnd.choice([{'expr': {'name': wname, 'expr': {'number': 7.0}}}, {'return': {'expr': V(wname)}},
+                                       {'expr': {'expr': {'function': {'name': 'systemLog', 'args': [V(wname)]}}}},
+                                       # a function value kept under a second name (the alias still denotes the OLD function after the name is defined again)
+                                       {'expr': {'name': 'al', 'expr': V(rnd.choice(fnames))}},
+                                       {'expr': {'name': 'r', 'expr': {'function': {'name': 'al', 'args': [V('n')]}}}}]))
             elif k < 0.62:
                 out.append({'jump': {'label': rnd.choice(labels), 'expr': cond(rnd.choice(['n', 'k']), float(rnd.randint(1, 4)))}})
             elif k < 0.78:
@@ -232,8 +242,14 @@ def random_model(rnd, size):
                 out.append({'return': {'expr': V(rnd.choice(['n', 'k', 'a1']))}} if rnd.random() < 0.6 else {'return': {}})
             elif k < 0.9 and (not in_func or (depth < 2 and rnd.random() < 0.4)):
                 # (hand-built models may nest function statements: they bind GLOBAL functions wherever they execute)
-                name = rnd.choice(['ff', 'gg', 'hh'])
-                f = {'name': name, 'statements': stmts(rnd.randint(0, 6), True, depth + 1)}
+                name = rnd.choice(fnames)
+                body = stmts(rnd.randint(0, 6), True, depth + 1)
+                if rnd.random() < 0.25:
+                    # the last statement returns a call of the function's own NAME (whatever that name is bound to when the call happens),
+                    # guarded by the counter so that the recursion ends
+                    body = [inc_stmt('k'), {'jump': {'label': 'tc', 'expr': {'binary': {'op': '>', 'left': V('k'), 'right': {'number': 3.0}}}}}] + body + \
+                        [{'return': {'expr': {'function': {'name': name, 'args': [V('a1')]}}}}, {'label': 'tc'}, {'return': {'expr': V('k')}}]
+                f = {'name': name, 'statements': body}
                 if rnd.random() < 0.6:
                     f['args'] = ['a1', 'a2'][:rnd.randint(1, 2)]
                     if rnd.random() < 0.3:
@@ -241,7 +257,7 @@ def random_model(rnd, size):
                 out.append({'function': f})
             else:
                 args = [rnd.choice([V('n'), {'number': 7.0}, {'string': 's'}]) for _ in range(rnd.randint(0, 3))]
-                call = {'function': {'name': rnd.choice(['ff', 'gg', 'hh']), 'args': args}}
+                call = {'function': {'name': rnd.choice(fnames), 'args': args}}
                 out.append({'expr': {'name': 'r', 'expr': call}} if rnd.random() < 0.6 else {'expr': {'expr': call}})
         return out
     return {'statements': stmts(rnd.randint(1, min(40, 4 + 6 * size)), False)}
@@ -325,6 +341,9 @@ def run_shard(ctx, spec):
             rnd = random.Random(seed)
             model = random_model(rnd, size)
             g = {'n': float(rnd.choice([0, 1, 5])), 'k': 0.0, 't0': copy.deepcopy(rnd.choice(TRUTH_POOL)), 't1': copy.deepcopy(rnd.choice(TRUTH_POOL))}
+            if rnd.random() < 0.15:
+                # the caller's globals bind the name of a library function themselves (an override, a variable that happens to have the name)
+                g[rnd.choice(LIBRARY_EDGE_NAMES)] = rnd.choice([None, 5.0, 'text'])
             try:
                 b = check_model(model, g, rnd.choice([40, 40, 200, 7]))
             except Violation as v:
